@@ -287,6 +287,25 @@ def _select_return(host, node_param):
     return sel
 
 
+def extra_print():
+    """the dataclass fields (declaration order, parseinfo left out) of the parser AST classes the code constructs"""
+    import dataclasses
+    from beanquery.parser import ast as bast
+    items = []
+    for q in PRIMS_PRINT:
+        cls = getattr(bast, q.rsplit('.', 1)[1])
+        if f'{cls.__module__}.{cls.__qualname__}' != q:
+            raise Untranslatable(f'{q} is not defined in beanquery.parser.ast')
+        flds = dataclasses.fields(cls)
+        for f in flds:
+            if f.name == 'parseinfo' and (f.compare or f.default is not None):
+                raise Untranslatable(f'{q}.parseinfo takes part in comparisons or has no None default')
+        names = [f.name for f in flds if f.name != 'parseinfo']
+        items.append(f'({gstr(q)}, {glist([gstr(n) for n in names])})')
+    return ('\n(* dataclasses.fields of the beanquery.parser.ast classes constructed by the translated code *)\n'
+            'Definition ast_decls : list (string * list string) :=\n  ' + glist(items) + '.\n')
+
+
 def spec_print():
     from beanquery import query_execute, compiler
     return [
@@ -309,5 +328,6 @@ GROUPS = {
                                                          'extra': extra_tables}),
     'ledger_balance': ('SrcLedgerBalance.v', spec_balance, {'translator': Group, 'prims': PRIMS_BALANCE,
                                                            'extra': extra_row}),
-    'ledger_print': ('SrcLedgerPrint.v', spec_print, {'translator': Group, 'prims': PRIMS_PRINT}),
+    'ledger_print': ('SrcLedgerPrint.v', spec_print, {'translator': Group, 'prims': PRIMS_PRINT,
+                                                       'extra': extra_print}),
 }
